@@ -54,13 +54,13 @@ def malformed(rng):
 
 def histories(rng, tier):
     mods = available()
-    share = 25 if tier == 'quick' else 400
+    share = 40 if tier == 'quick' else 400
     out = []
     for m in mods:
         hs = m.histories(rng, 'quick')
         rng.shuffle(hs)
         out += [add_states(h) for h in hs[:share]]
-    out += [malformed(rng) for _ in range(60 if tier == 'quick' else 1000)]
+    out += [malformed(rng) for _ in range(120 if tier == 'quick' else 1000)]
     return out
 
 
